@@ -1,4 +1,4 @@
-CONSTANTS MaxR = 1 MaxO = 2 NegFds = 1 DstHi = 3 NPresent = 3 Piped = FALSE Emitting = FALSE
+CONSTANTS MaxR = 1 MaxO = 2 NegFds = 1 DstHi = 3 NPresent = 3 Piped = FALSE Emitting = FALSE Mini = FALSE FdA = 1 FdB = 2
 SPECIFICATION Spec
 INVARIANT TypeOK
 INVARIANT NoLeakInCode
